@@ -81,6 +81,8 @@ class C01(Check):
         depth: list[int] = []
 
         def leaf():
+            if rng.random() < 0.08:
+                return [0]  # the length set of an empty composite: repetitions of it stay {0}
             n = rng.randint(1, 4)
             if huge and rng.random() < 0.5:
                 vals = sorted({rng.choice([0, 1, 7, 8, 16, 24, 31, 32, 33, 64, 2**20 + 1, 2**40]) for _ in range(n)})
@@ -290,12 +292,16 @@ class C01(Check):
                     else:
                         node = build_ref(ref, op)
                         args = [real[x] if isinstance(x, int) else (set(x["lit"]) if len(x["lit"]) > 1 else x["lit"][0]) for x in op[1]] if k in ("cat", "uni", "radd", "ror") else None
+                        def it(a):
+                            # concatenate() / unite() take an Iterable: a list, a tuple, or something that can be consumed once
+                            sel = n % 6
+                            return a if sel < 2 else tuple(a) if sel == 2 else (x for x in a) if sel == 3 else iter(a) if sel == 4 else map(lambda x: x, a)
                         if k == "cat":
-                            b = BLS.concatenate(args) if len(args) != 2 or n % 2 else (args[0] + args[1] if isinstance(args[0], BLS) else BLS.concatenate(args))
+                            b = BLS.concatenate(it(args)) if len(args) != 2 or n % 2 else (args[0] + args[1] if isinstance(args[0], BLS) else BLS.concatenate(it(args)))
                         elif k == "radd":
                             b = args[0] + args[1]  # literal + BitLengthSet -> __radd__
                         elif k == "uni":
-                            b = BLS.unite(args) if len(args) != 2 or n % 2 else (args[0] | args[1] if isinstance(args[0], BLS) else BLS.unite(args))
+                            b = BLS.unite(it(args)) if len(args) != 2 or n % 2 else (args[0] | args[1] if isinstance(args[0], BLS) else BLS.unite(it(args)))
                         elif k == "ror":
                             b = args[0] | args[1]
                         elif k == "rep":
